@@ -201,6 +201,24 @@ def make_builtins(it):
         return VBytes(t)
     reg("$bytes_of", f_bytes_of)
 
+    def f_require(it, args, kw):
+        """callee precondition stated inside a reference function: proved at every call site"""
+        what = args[1] if len(args) > 1 and isinstance(args[1], str) else "pre"
+        name = "%s.callsite[%s]" % (it.ctx.ghost.get("contract_name", "?"), what)
+        if not it.ctx.ghost.get("in_body"):
+            # outside the body under verification (reference side / ensures): plain assumption
+            it.ctx.assume(ops.truthy(it, args[0]))
+            return None
+        it.ctx.oblige(name, ops.truthy(it, args[0]), info={"callsite": it.ctx.cur_func})
+        return None
+    reg("$require", f_require)
+
+    def f_assume(it, args, kw):
+        """postcondition of an abstracted callee (assume-post step of modular reasoning)"""
+        it.ctx.assume(ops.truthy(it, args[0]))
+        return None
+    reg("$assume", f_assume)
+
     def f_unreachable(it, args, kw):
         raise PyRaise("SpecUnreachable")
     reg("$unreachable", f_unreachable)
